@@ -291,3 +291,177 @@ Proof.
   destruct (_ <=? mx); [eapply truncate_tail_FJ; eassumption|].
   intros [= <- <- <-]; auto.
 Qed.
+
+(* ---------------- restart: adopt_disk, Open ---------------- *)
+Lemma ISs'_adopt d L : NoDup (map fst (dk_files d)) -> ISs' d L -> ISs' (adopt_disk d) L.
+Proof.
+  intros ND. unfold ISs'. apply Forall_impl. intros s H Hs f' Hf'.
+  cbn [adopt_disk dk_files] in Hf'.
+  assert (E : lookup (name_of s) (map (fun nf => (fst nf, adopt_file (snd nf))) (dk_files d)) =
+              option_map adopt_file (lookup (name_of s) (dk_files d))).
+  { clear. induction (dk_files d) as [|[m g] r IH]; cbn [map lookup fst snd option_map]; [reflexivity|].
+    destruct (fname_eqb (name_of s) m); [reflexivity|exact IH]. }
+  rewrite E in Hf'. destruct (lookup (name_of s) (dk_files d)) as [f|] eqn:Ef; [|discriminate].
+  cbn in Hf'. inversion Hf'; subst f'. destruct (H Hs f Ef) as (A & B & C).
+  unfold adopt_file. rewrite C. auto.
+Qed.
+
+(* sealed and unsealed listed segments have different files *)
+Definition names_sep (P : list seginfo) : Prop :=
+  forall s u, In s P -> In u P -> si_sealed s = true -> si_sealed u = false -> name_of s <> name_of u.
+
+Lemma open_segs_FJ c P segs : forall acc e r segs' tail e1,
+  NoDup (map fst (dk_files (e_disk e))) -> no_pend (e_disk e) -> ISs' (e_disk e) P -> names_sep P ->
+  (forall x, In x segs -> In x P) -> (forall x, In x acc -> In x P) ->
+  open_segs c segs acc e = (r, segs', tail, e1) ->
+  ISs' (e_disk e1) P /\ NoDup (map fst (dk_files (e_disk e1))) /\ dk_meta (e_disk e1) = dk_meta (e_disk e) /\
+  (r = ROk -> ISs' (e_disk e1) segs' /\ forall x, In x segs' -> exists y, In y P /\ si_id x = si_id y).
+Proof.
+  induction segs as [|si rest IH]; intros acc e r segs' tail e1 ND Hnp HP Hsep Hsub Hacc H.
+  - cbn [open_segs] in H. inversion H; subst. split; [exact HP|]. split; [exact ND|]. split; [reflexivity|]. intros _.
+    rewrite rev_append_rev, app_nil_r. split.
+    + eapply ISs'_incl; [|exact HP]. intros x Hx. left. apply Hacc. apply in_rev. exact Hx.
+    + intros x Hx. exists x. split; [apply Hacc; apply in_rev; exact Hx|reflexivity].
+  - assert (Hsame : (r <> ROk /\ e1 = e) ->
+              ISs' (e_disk e1) P /\ NoDup (map fst (dk_files (e_disk e1))) /\ dk_meta (e_disk e1) = dk_meta (e_disk e) /\
+              (r = ROk -> ISs' (e_disk e1) segs' /\ forall x, In x segs' -> exists y, In y P /\ si_id x = si_id y)).
+    { intros (Hr & ->). split; [exact HP|]. split; [exact ND|]. split; [reflexivity|]. intros K. congruence. }
+    assert (Hsi : In si P) by (apply Hsub; left; reflexivity).
+    cbn [open_segs] in H.
+    destruct (negb (si_codec si =? c_codec c)); [inversion H; subst; apply Hsame; split; [discriminate|reflexivity]|].
+    destruct (si_sealed si) eqn:Ese; cbn [negb] in H.
+    + destruct (lookup (name_of si) (dk_files (e_disk e))) as [f|] eqn:Ef; [|inversion H; subst; apply Hsame; split; [discriminate|reflexivity]].
+      destruct (cur_end f =? 0); [inversion H; subst; apply Hsame; split; [discriminate|reflexivity]|].
+      apply (IH (si :: acc) e r segs' tail e1 ND Hnp HP Hsep); [| |exact H].
+      * intros x Hx. apply Hsub. right. exact Hx.
+      * intros x [<-|Hx]; [exact Hsi|apply Hacc; exact Hx].
+    + destruct rest as [|s2 rest']; [|inversion H; subst; apply Hsame; split; [discriminate|reflexivity]].
+      assert (Hres : forall d', ISs' d' P -> ISs' d' (rev_append acc [si]) /\
+                       forall x, In x (rev_append acc [si]) -> exists y, In y P /\ si_id x = si_id y).
+      { intros d' HP'. split.
+        - eapply ISs'_incl; [|exact HP']. intros x Hx. rewrite rev_append_rev in Hx. apply in_app_or in Hx as [Hx|[<-|[]]].
+          + left. apply Hacc. apply in_rev. exact Hx.
+          + left. exact Hsi.
+        - intros x Hx. rewrite rev_append_rev in Hx. apply in_app_or in Hx as [Hx|[<-|[]]].
+          + exists x. split; [apply Hacc; apply in_rev; exact Hx|reflexivity].
+          + exists si. auto. }
+      destruct (seg_recover si e) as [[sw|]|] eqn:Erec.
+      * unfold seg_recover in Erec. destruct (lookup (name_of si) (dk_files (e_disk e))) as [f|] eqn:Ef; [|discriminate].
+        inversion Erec; subst sw. cbn [ws_index_start] in H.
+        destruct (0 <? cur_seal f) eqn:Es.
+        -- inversion H; subst. split; [exact HP|]. split; [exact ND|]. split; [reflexivity|]. intros _. split.
+           ++ rewrite rev_append_rev. apply ISs'_app. split.
+              ** eapply ISs'_incl; [|exact HP]. intros x Hx. left. apply Hacc. apply in_rev. exact Hx.
+              ** constructor; [|constructor]. intros _ f' Hf'. change (name_of _) with (name_of si) in Hf'.
+                 rewrite Ef in Hf'. inversion Hf'; subst f'. cbn [si_index_start].
+                 pose proof (Hnp _ _ Ef) as Hp. unfold cur_seal in Es. rewrite Hp in Es. split; [unfold cur_seal; rewrite Hp; reflexivity|]. split; [lia|exact Hp].
+           ++ intros x Hx. rewrite rev_append_rev in Hx. apply in_app_or in Hx as [Hx|[<-|[]]].
+              ** exists x. split; [apply Hacc; apply in_rev; exact Hx|reflexivity].
+              ** exists si. auto.
+        -- inversion H; subst. split; [exact HP|]. split; [exact ND|]. split; [reflexivity|]. intros _. apply Hres. exact HP.
+      * inversion H; subst. apply Hsame; split; [discriminate|reflexivity].
+      * destruct (seg_create si e) as [sw e2] eqn:Es.
+        assert (Hn : forall s, In s P -> si_sealed s = true -> name_of s <> name_of si).
+        { intros s Hs Hss. apply (Hsep s si Hs Hsi Hss Ese). }
+        destruct (seg_create_frame si e sw e2 P ND Hn HP Es) as (A & B & C).
+        destruct sw as [sw|].
+        -- assert (Hsw : ws_index_start sw = 0).
+           { unfold seg_create in Es. destruct (si_base si =? 0); [discriminate|].
+             destruct (lookup _ _); [destruct (io _ e); discriminate|]. destruct (io _ e) as [ok' ex].
+             destruct ok'; [inversion Es; reflexivity|discriminate]. }
+           rewrite Hsw in H. cbn in H. inversion H; subst. split; [exact A|]. split; [exact B|]. split; [exact C|].
+           intros _. apply Hres. exact A.
+        -- inversion H; subst. split; [exact A|]. split; [exact B|]. split; [exact C|]. discriminate.
+Qed.
+
+Lemma open_newtail_FJ c nid0 segs garbage e res e' :
+  NoDup (map fst (dk_files (e_disk e))) -> ISs' (e_disk e) segs -> Forall (fun x => si_id x < nid0) segs ->
+  open_newtail c nid0 segs garbage e = (res, e') ->
+  NoDup (map fst (dk_files (e_disk e'))) /\
+  match res with
+  | OOk w => FJ w (e_disk e')
+  | OErr _ => ISs' (e_disk e') (meta_segs (e_disk e')) \/
+              (dk_files (e_disk e') = dk_files (e_disk e) /\ dk_meta (e_disk e') = dk_meta (e_disk e))
+  end.
+Proof.
+  intros ND Hs Hid. unfold open_newtail. cbn zeta.
+  set (base := match tail_info segs with Some t => (si_max t + 1) mod two64 | None => 1 end).
+  set (si := new_segment c nid0 base).
+  match goal with |- context [io ?a e] => destruct (io a e) as [ok1 e1] eqn:Eio end.
+  pose proof (io_meta_files _ _ _ _ Eio I) as Ef1.
+  destruct (io_cases _ _ _ _ Eio) as [(-> & Ed)|(-> & Ed)]; cbn [negb].
+  2:{ intros [= <- <-]. rewrite Ed. split; [exact ND|]. right. auto. }
+  assert (ND1 : NoDup (map fst (dk_files (e_disk e1)))) by (rewrite Ef1; exact ND).
+  assert (Em1 : meta_segs (e_disk e1) = seg_set si segs) by (rewrite Ed; reflexivity).
+  assert (H1 : ISs' (e_disk e1) (seg_set si segs)).
+  { eapply ISs'_files; [exact Ef1|]. eapply ISs'_incl; [|exact Hs]. intros x Hx.
+    apply in_seg_set in Hx as [->|Hx]; [right; apply new_segment_IS'|left; exact Hx]. }
+  destruct (seg_create si e1) as [sw e2] eqn:Es.
+  assert (Hn : forall s, In s (seg_set si segs) -> si_sealed s = true -> name_of s <> name_of si).
+  { intros s Hx Hss. apply in_seg_set in Hx as [->|Hx]; [discriminate|]. apply (ids_name_neq segs nid0 base s c Hid Hx). }
+  destruct (seg_create_frame si e1 sw e2 _ ND1 Hn H1 Es) as (A & B & C).
+  assert (Em2 : meta_segs (e_disk e2) = seg_set si segs) by (rewrite (meta_segs_files _ _ C); exact Em1).
+  destruct sw as [sw|].
+  - destruct (delete_files_frame garbage e2 _ B A) as (A3 & B3 & C3).
+    intros [= <- <-]. split; [exact B3|]. unfold FJ. cbn [st_segs]. rewrite (meta_segs_files _ _ C3), Em2.
+    apply ISs'_app. auto.
+  - intros [= <- <-]. split; [exact B|]. left. rewrite Em2. exact A.
+Qed.
+
+Theorem open_wal_FJ c e res e' :
+  NoDup (map fst (dk_files (e_disk e))) -> no_pend (e_disk e) ->
+  ISs' (e_disk e) (meta_segs (e_disk e)) -> names_sep (meta_segs (e_disk e)) -> dids_ok (e_disk e) ->
+  open_wal c e = (res, e') ->
+  NoDup (map fst (dk_files (e_disk e'))) /\
+  match res with
+  | OOk w => FJ w (e_disk e')
+  | OErr _ => ISs' (e_disk e') (meta_segs (e_disk e'))
+  end.
+Proof.
+  intros ND Hnp HP Hsep Hdid. rewrite open_wal_unfold.
+  destruct (_ && _); [intros [= <- <-]; auto|].
+  assert (Hrest : forall e0, dk_files (e_disk e0) = dk_files (e_disk e) -> dk_meta (e_disk e0) = dk_meta (e_disk e) ->
+            open_rest c e0 = (res, e') ->
+            NoDup (map fst (dk_files (e_disk e'))) /\
+            match res with OOk w => FJ w (e_disk e') | OErr _ => ISs' (e_disk e') (meta_segs (e_disk e')) end).
+  { intros e0 Ef0 Em0. unfold open_rest. cbn zeta.
+    assert (ND0 : NoDup (map fst (dk_files (e_disk e0)))) by (rewrite Ef0; exact ND).
+    assert (Hnp0 : no_pend (e_disk e0)) by (intros n f; rewrite Ef0; apply Hnp).
+    assert (Ems : meta_segs (e_disk e0) = meta_segs (e_disk e)) by (apply meta_segs_files; exact Em0).
+    set (ps := match dk_meta (e_disk e0) with Some ps => ps | None => {| ps_next_id := 0; ps_segs := [] |} end).
+    assert (Eps : ps_segs ps = meta_segs (e_disk e)).
+    { rewrite <- Ems. unfold ps, meta_segs. destruct (dk_meta (e_disk e0)); reflexivity. }
+    assert (Hpid : Forall (fun x => si_id x < ps_next_id ps) (ps_segs ps)).
+    { unfold ps, dids_ok in *. rewrite Em0. destruct (dk_meta (e_disk e)); [exact Hdid|constructor]. }
+    destruct (open_segs c (ps_segs ps) [] e0) as [[[r segs] tail] e1] eqn:Eo.
+    assert (HP0 : ISs' (e_disk e0) (ps_segs ps)) by (rewrite Eps; eapply ISs'_files; eauto).
+    destruct (open_segs_FJ c (ps_segs ps) (ps_segs ps) [] e0 r segs tail e1 ND0 Hnp0 HP0) with (4 := Eo) as (A & B & C & D).
+    - rewrite Eps. exact Hsep.
+    - auto.
+    - intros x [].
+    - assert (Em1 : meta_segs (e_disk e1) = ps_segs ps).
+      { rewrite (meta_segs_files _ _ C), Ems. symmetry. exact Eps. }
+      destruct r; try (intros [= <- <-]; split; [exact B|rewrite Em1; exact A]).
+      destruct (D eq_refl) as (D1 & D2).
+      destruct tail as [tw|].
+      + destruct (delete_files_frame (filter (fun n => negb (listed (ps_segs ps) n)) (map fst (dk_files (e_disk e0)))) e1
+                    (segs ++ ps_segs ps) B) as (A3 & B3 & C3); [apply ISs'_app; auto|].
+        intros [= <- <-]. split; [exact B3|]. unfold FJ. cbn [st_segs]. rewrite (meta_segs_files _ _ C3), Em1. exact A3.
+      + intros Hn.
+        assert (Hid4 : Forall (fun x => si_id x < ps_next_id ps) segs).
+        { rewrite Forall_forall in *. intros x Hx. destruct (D2 x Hx) as (y & Hy & ->). apply Hpid. exact Hy. }
+        destruct (open_newtail_FJ c (ps_next_id ps) segs _ e1 res e' B D1 Hid4 Hn) as (B4 & Hres).
+        * split; [exact B4|]. destruct res as [w|x]; [exact Hres|].
+          destruct Hres as [K|(K1 & K2)]; [exact K|]. rewrite (meta_segs_files _ _ K2), Em1. eapply ISs'_files; eauto. }
+  destruct (dk_inited (e_disk e)).
+  - cbn [negb]. destruct (armed e && fx_list (e_fx e)); [intros [= <- <-]; auto|]. apply (Hrest e); reflexivity.
+  - destruct (io AInitMeta e) as [ok0 e0] eqn:Eio.
+    pose proof (io_meta_files _ _ _ _ Eio I) as Ef0.
+    assert (Em0 : dk_meta (e_disk e0) = dk_meta (e_disk e)).
+    { destruct (io_cases _ _ _ _ Eio) as [(_ & ->)|(_ & ->)]; reflexivity. }
+    assert (Hbase : NoDup (map fst (dk_files (e_disk e0))) /\ ISs' (e_disk e0) (meta_segs (e_disk e0))).
+    { split; [rewrite Ef0; exact ND|]. rewrite (meta_segs_files _ _ Em0). eapply ISs'_files; eauto. }
+    destruct ok0; cbn [negb]; [|intros [= <- <-]; exact Hbase].
+    destruct (armed e0 && fx_list (e_fx e0)); [intros [= <- <-]; cbn [list_failed e_disk]; exact Hbase|].
+    apply (Hrest e0); auto.
+Qed.
